@@ -711,6 +711,9 @@ def run(ctx):
         rule_p1(ctx, F)
         rule_a1(ctx, F)
         rule_borrowed(ctx, F)
+        # "freed exactly once": a clone must own its own copy of what release frees per node (shared with C08.P2)
+        import C08
+        C08.rule_p2(ctx, F)
     ctx.assumptions = ["an external scanner's serialize() writes at most TREE_SITTER_SERIALIZATION_BUFFER_SIZE bytes into the buffer it is given (documented contract; foreign code)",
                        "Clang/rustc front ends are faithful", "index counters tested with == against their bound only ever grow by one (DESIGN §3.6 (c))"]
     try:
